@@ -224,6 +224,21 @@ CLAIMED = {
              "its scope by construction.",
         technique="Coq proof over translator-extracted write/reset sets (vm_compute) + cache transparency proof "
                   "(induction over lookup sequences) + differential histories shared-vs-fresh parser"),
+    "C15": dict(
+        category="proof",
+        text="Theorems over the model of inject_meta_charset (a fold with the pre/in/post-head state and the pending "
+             "queue): for EVERY stream with closed heads the output minus the injected token is the input token for "
+             "token, only meta attribute VALUES change (keys and order kept); a rewritten meta and the injected token "
+             "declare the encoding (charset attribute, or content-type pragma content). Model tied by exact-agreement "
+             "correspondence on random streams (metas with charset/http-equiv/content/namespaced attributes in every "
+             "order, unclosed and repeated heads). PARTIAL: 'exactly one injection directly after <head>' is validated, "
+             "not proved; the byte-level clauses are decided by the end-to-end run (serialize with every codec of "
+             "webencodings.LABELS x omit_optional_tags, parse the bytes with no hints, compare documentEncoding and "
+             "tree) with three recorded findings.",
+        design_ref="DESIGN.md 3 C15",
+        note="codecs are opaque; the prescan model is C06's.",
+        technique="Coq proof (invariant over the filter's state machine, induction over streams) + differential "
+                  "correspondence + end-to-end encode/decode run"),
 }
 
 PENDING_REASON = "not yet built in this round (planned: Coq model + theorems per DESIGN.md section 3); no check is registered, so nothing is claimed"
